@@ -11,7 +11,7 @@ git -C /repo worktree remove --force "$wt" >/dev/null 2>&1
 git -C /repo worktree add --detach "$wt" HEAD >/dev/null 2>&1 || { echo "cannot create worktree"; exit 2; }
 cd "$wt"
 PYTHONPATH=$wt PYTHONDONTWRITEBYTECODE=1 /venv/bin/python "$seed/demo.py" > "$out/demo_without.txt" 2>&1; d0=$?
-git apply "$seed/patch.diff" || { echo "patch does not apply"; git -C /repo worktree remove --force "$wt"; exit 2; }
+git apply "$seed/patch.diff" 2>/dev/null || git apply -C1 --recount "$seed/patch.diff" 2>/dev/null || patch -p1 -F3 -s < "$seed/patch.diff" || { echo "SEED $name: patch does not apply"; git -C /repo worktree remove --force "$wt"; exit 2; }
 PYTHONPATH=$wt PYTHONDONTWRITEBYTECODE=1 /venv/bin/python "$seed/demo.py" > "$out/demo_with.txt" 2>&1; d1=$?
 if [ -z "$SKIP_SUITE" ]; then suite=$(python3 /verif/tools/baseline.py "$wt" | head -1); else suite="(suite skipped)"; fi
 echo "SEED $name: demo without=$d0 with=$d1 | $suite"
